@@ -7,6 +7,7 @@ CONSTANTS
   Lo = 100
   Hi = 100
   Step = 1
+  MaxRbf = 7
   MaxRatio = 3
 INVARIANTS TxDump
 CHECK_DEADLOCK FALSE
